@@ -254,6 +254,7 @@ fn run_sched<E: EventState + Debug + 'static>(args: &Args, state: &str) {
     let mut executions = 0u64;
     let mut anomalies = 0u64;
     let mut exhausted = false;
+    let mut guide_deviations = 0u64;
     let nl = prog.n.len();
 
     let mut one = |strat: &mut dyn Strategy, out: &mut TraceWriter| {
@@ -306,8 +307,10 @@ fn run_sched<E: EventState + Debug + 'static>(args: &Args, state: &str) {
                     if atoms {
                         let role = if site.addr == trig {
                             "trig"
-                        } else if site.width == 1 {
+                        } else if site.file.ends_with("event/common.rs") {
                             "state"
+                        } else if site.file.ends_with("relocatable_pointer.rs") || (site.kind == "load" && site.ord == "Relaxed" && site.width == 1 && site.line < 200) {
+                            "aux"
                         } else {
                             "bits"
                         };
@@ -365,14 +368,87 @@ fn run_sched<E: EventState + Debug + 'static>(args: &Args, state: &str) {
             let mut s = Replay::new(tids);
             one(&mut s, &mut out);
         }
+        "guide" => {
+            let g: Vec<(usize, String)> = serde_json::from_str::<Vec<(usize, String)>>(&args.get_or("guide", "[]"))
+                .expect("bad --guide");
+            let mut s = Guide { steps: g, idx: 0, started: false, deviations: 0 };
+            one(&mut s, &mut out);
+            guide_deviations = s.deviations as u64;
+        }
         m => panic!("unknown mode {m}"),
     }
     out.flush();
     println!(
         "{}",
         json!({"executions": executions, "anomalies": anomalies, "exhausted": exhausted, "lines": out.lines,
-               "state": state, "mode": mode, "seed": seed})
+               "state": state, "mode": mode, "seed": seed, "deviations": guide_deviations})
     );
+}
+
+// ------------------------------------------------------------------------------------------
+// directed replay of a TLC behaviour: guide = [[thread, role], …], role = api|bits|state|trig
+
+struct Guide {
+    steps: Vec<(usize, String)>,
+    idx: usize,
+    started: bool,
+    deviations: usize,
+}
+
+fn role_of(p: &sched::Pending) -> &'static str {
+    match p {
+        sched::Pending::Start | sched::Pending::Api(_) | sched::Pending::After => "api",
+        sched::Pending::Blocked(_, _) => "trig",
+        sched::Pending::Atomic(s) => {
+            if s.addr == TRIGGER_ADDR.load(StdOrdering::SeqCst) {
+                "trig"
+            } else if s.file.ends_with("event/common.rs") {
+                "state"
+            } else {
+                // event state accesses (bit set / counting bit set incl. their auxiliary loads)
+                "bits"
+            }
+        }
+    }
+}
+
+impl Strategy for Guide {
+    fn choose(&mut self, c: &sched::Choice) -> usize {
+        // a guide step covers the maximal run of accesses of one role of one thread
+        loop {
+            if self.idx >= self.steps.len() {
+                return match c.current {
+                    Some(t) if c.enabled.contains(&t) => t,
+                    _ => c.enabled[0],
+                };
+            }
+            let (tid, role) = (self.steps[self.idx].0, self.steps[self.idx].1.clone());
+            let matches = c.enabled.contains(&tid)
+                && c.pending[tid].as_ref().map(|p| role_of(p) == role).unwrap_or(false);
+            if std::env::var("GUIDE_DEBUG").is_ok() {
+                eprintln!("guide idx={} want=({},{}) started={} pending={:?} enabled={:?}", self.idx, tid, role, self.started,
+                    c.pending.iter().map(|p| p.as_ref().map(|p| format!("{}:{}", role_of(p), p.describe()))).collect::<Vec<_>>(), c.enabled);
+            }
+            if matches {
+                self.started = true;
+                return tid;
+            }
+            if self.started {
+                // the run of this step is over, go to the next guide step
+                self.started = false;
+                self.idx += 1;
+                continue;
+            }
+            // the wanted thread is not at an access of that role: the model and the code disagree
+            // about the step structure; skip the step and go on
+            // ("api" steps of a thread that sits at its Start yield are consumed first)
+            if c.enabled.contains(&tid) && matches!(c.pending[tid], Some(sched::Pending::Start)) {
+                return tid;
+            }
+            self.deviations += 1;
+            self.idx += 1;
+        }
+    }
 }
 
 // ------------------------------------------------------------------------------------------
